@@ -4,7 +4,7 @@ use tyme4rs::tyme::jd::JulianDay;
 use tyme4rs::tyme::solar::SolarTime;
 use crate::util::*;
 
-const OPS: &[&str] = &["scd", "sch", "jd.week", "jd.weekf"];
+const OPS: &[&str] = &["scd", "sch", "jd.week", "jd.weekf", "sch.daynext"];
 
 pub fn exec(op: &str, a: &[i64]) -> Option<Option<String>> {
   if OPS.contains(&op) { Some(go(op, a)) } else { None }
@@ -40,8 +40,28 @@ pub fn go(op: &str, a: &[i64]) -> Option<String> {
       let jd = JulianDay::from_julian_day(a[0] as f64 - 0.5 + (a[1] as f64) / 86400.0);
       Some(format!("{}", jd.get_week().get_index()))
     }
+    // the sexagenary day taken FROM an instant-level view (at 23:xx it carries the next day's pillar) and stepped by n:
+    // civil date and the three pillars of the result — SixtyCycleDay::next must re-derive everything from the date
+    ("sch.daynext", 7) => {
+      use tyme4rs::tyme::Tyme;
+      let t = SolarTime::new(a[0] as isize, us(a[1])?, us(a[2])?, us(a[3])?, us(a[4])?, us(a[5])?).ok()?;
+      let x = t.get_sixty_cycle_hour().get_sixty_cycle_day().next(a[6] as isize);
+      Some(format!("{} {} {} {}", fmt_day(&x.get_solar_day()), x.get_year().get_index(), x.get_month().get_index(), x.get_sixty_cycle().get_index()))
+    }
     _ => Some("bad-op".to_string()),
   }
+}
+
+/// what can still be said about a civil day whose sexagenary-day view is refused (January 0001 before the first term):
+/// the pillar through the lunar date, the weekday, the weekday through the lunar date — each guarded on its own
+fn scd_fallback(y: i64, m: i64, d: i64) -> String {
+  let f = |g: &dyn Fn() -> Option<usize>| -> String {
+    match std::panic::catch_unwind(std::panic::AssertUnwindSafe(|| g())) { Ok(Some(v)) => v.to_string(), _ => "r".to_string() }
+  };
+  let lp = f(&|| Some(solar_day(y, m, d)?.get_lunar_day().get_sixty_cycle().get_index()));
+  let wk = f(&|| Some(solar_day(y, m, d)?.get_week().get_index()));
+  let wl = f(&|| Some(solar_day(y, m, d)?.get_lunar_day().get_week().get_index()));
+  format!("R {} {} {}", lp, wk, wl)
 }
 
 pub fn run_enum(name: &str, args: &[String], w: &mut dyn Write) -> bool {
@@ -52,7 +72,8 @@ pub fn run_enum(name: &str, args: &[String], w: &mut dyn Write) -> bool {
         let mut out = String::new();
         for m in 1i64..=12 { for d in 1i64..=31 {
           if solar_day(y, m, d).is_none() { continue; }
-          let r = guard(|| go("scd", &[y, m, d]));
+          let mut r = guard(|| go("scd", &[y, m, d]));
+          if r == REFUSED { r = scd_fallback(y, m, d); }
           out.push_str(&format!("{} {} {} {}\n", y, m, d, r));
         }}
         out
